@@ -394,6 +394,10 @@ Proof.
   rewrite (row_width_plain rw G), firstn_length, skipn_length. simpl. unfold span_of. simpl. lia.
 Qed.
 
+(* a call that is refused leaves the table exactly as it was - every call, every table *)
+Theorem error_unchanged t o : step t o = Err -> state_after t o = Some t.
+Proof. intros H. unfold state_after. rewrite H. destruct o; reflexivity. Qed.
+
 (* ---- what goes wrong once a table contains merges: one witness per known finding ------------------- *)
 
 Definition t33 : table := create 3 3 [1000; 1000; 1000]%N.
